@@ -108,7 +108,7 @@ def St.envFor (s : St) (x : Arena) (bytes align : Nat) : Env :=
 
 def userBlocks (x : Arena) : List Block := (x.blocks.filter (·.kind == .user)).reverse
 
-def step (s : St) (line : String) : St × String :=
+def step (paths : Bool) (s : St) (line : String) : St × String :=
   match words line with
   | ["reset"] => ({}, "ok")
   | ["end"] =>
@@ -144,7 +144,8 @@ def step (s : St) (line : String) : St × String :=
       let e := s.envFor x bytes align
       let (x', p, evs) := x.allocate bytes align .user e
       let s := { s with sys := s.sys.set r x' }.commit evs
-      (s, s!"ret={p} | {showArena x'} | {showEvs evs}")
+      let extra := if paths then s!" path={repr (x.allocPath bytes align)}" else ""
+      (s, s!"ret={p} | {showArena x'} | {showEvs evs}{extra}")
     | _, _, _ => (s, "bad-op")
   | [r, "reg", tag] =>
     match reg? r, tag.toNat? with
@@ -153,7 +154,8 @@ def step (s : St) (line : String) : St × String :=
       let e := s.envFor x Babylon.Gen.Arena.sizeofDtArray Babylon.Gen.Arena.alignofDtArray
       let (sys, evs) := s.sys.step (.on r (.reg tag e))
       let s := { s with sys := sys }.commit evs
-      (s, s!"ok | {showArena (sys.get r)} | {showEvs evs}")
+      let extra := if paths then (if x.dtRoom then " path=dtRoom" else s!" path=dtNew+{repr (x.allocPath Babylon.Gen.Arena.sizeofDtArray Babylon.Gen.Arena.alignofDtArray)}") else ""
+      (s, s!"ok | {showArena (sys.get r)} | {showEvs evs}{extra}")
     | _, _ => (s, "bad-op")
   | [r, "release"] =>
     match reg? r with
@@ -185,4 +187,4 @@ def step (s : St) (line : String) : St × String :=
     | _, _, _ => (s, "bad-op")
   | _ => (s, "bad-op")
 
-def main : IO Unit := runLines step ({} : St)
+def main (args : List String) : IO Unit := runLines (step (args.contains "paths")) ({} : St)
